@@ -25,10 +25,11 @@ CORE_KINDS = [
     "overriding-method", "self-method", "self-inherited-method", "method-on-param", "method-on-returned",
     "callback-positional", "callback-keyword", "callback-bound-method", "returned-closure", "returned-function",
     "returned-function-local", "returned-param", "stored-variable", "stored-list", "stored-list-read", "stored-dict",
-    "stored-field", "stored-field-self", "stored-list-loop", "stored-dict-loop", "method-on-list-element", "cond-alias", "recursion", "mutual-recursion", "recursive-method",
+    "stored-field", "stored-field-self", "stored-class", "callback-constructor", "method-on-field", "method-on-self-field",
+    "method-on-returned-self", "stored-list-loop", "stored-dict-loop", "method-on-list-element", "cond-alias", "recursion", "mutual-recursion", "recursive-method",
 ]
 EXT_KINDS = [
-    "self-dispatch-subclass", "self-dispatch-noinit-subclass", "diamond-init", "diamond-class-attr", "super-init", "super-method", "explicit-base-init", "closure-captured", "default-param", "staticmethod",
+    "self-dispatch-subclass", "self-dispatch-noinit-subclass", "self-dispatch-explicit-init-subclass", "diamond-init", "diamond-class-attr", "super-init", "super-method", "explicit-base-init", "closure-captured", "default-param", "staticmethod",
     "classmethod", "lambda", "class-attr-method", "diamond-method", "stored-list-append",
 ]
 ALL_KINDS = CORE_KINDS + EXT_KINDS
@@ -291,6 +292,15 @@ class Gen:
                 return c, c.init
         return None, None
 
+    def inner_of(self, cls):
+        """class of the object that the running __init__ stores in self.inner, or None"""
+        d, k = self.init_info(cls)
+        return getattr(d, "inner", None) if d is not None else None
+
+    def plain_methods(self, cls):
+        return [n for n in self.method_names(cls) if n in METHOD_NAMES
+                and self.find_method(cls, n)[0].methods[n]["flavour"] == "plain" and not self.diamond_differs(cls, n)]
+
     def method_names(self, cls):
         names = []
         for c in self.mro(cls):
@@ -329,11 +339,11 @@ class Gen:
 
     def def_ho(self, mod):
         """higher-order functions: the call line of the callback is labelled here."""
-        flavour = self.ch.pick(["pos", "pos", "kw", "kw", "bm", "default", "pos2"])
-        if flavour == "bm" and self.no_classes:
+        flavour = self.ch.pick(["pos", "pos", "kw", "kw", "bm", "default", "pos2", "cls"])
+        if flavour in ("bm", "cls") and self.no_classes:
             flavour = "pos"
         kind = {"pos": "callback-positional", "pos2": "callback-positional", "kw": "callback-keyword",
-                "bm": "callback-bound-method", "default": "default-param"}[flavour]
+                "bm": "callback-bound-method", "default": "default-param", "cls": "callback-constructor"}[flavour]
         if self.avoided(kind):
             flavour, kind = "pos", "callback-positional"
             if self.avoided(kind):
@@ -434,11 +444,11 @@ class Gen:
         if self.avoided("method-on-param"):
             return None
         tmp = Scope(self, mod, len(self.ents), 1, mod.body, None)
-        classes = self.visible(tmp, "class", lambda c: bool(self.method_names(c)))
+        classes = self.visible(tmp, "class", lambda c: any(n in METHOD_NAMES for n in self.method_names(c)))
         if not classes:
             return None
         cls = self.ch.pick(classes)
-        mname = self.ch.pick(self.method_names(cls))
+        mname = self.ch.pick([n for n in self.method_names(cls) if n in METHOD_NAMES])
         name = mod.fresh("u")
         e = self.new_ent(mod, name, "recv", root=cls, mname=mname)
         out = mod.body
@@ -515,7 +525,7 @@ class Gen:
         a = self.def_class(mod, force={"bases": [], "names": ch.pick([["ma"], ["ma", "mb"], ["mb", "mc"]]),
                                        "init": ch.pick(["none", "plain"])})
         b = self.def_class(mod, force={"bases": [a], "names": ch.pick([[], [], ["md"]]), "init": "none"})
-        over = ch.pick(sorted(a.methods))
+        over = ch.pick(sorted(n for n in a.methods if n in METHOD_NAMES))
         c = self.def_class(mod, force={"bases": [a], "names": [over], "init": ch.pick(["none", "none", "plain"])})
         d = self.def_class(mod, force={"bases": [b, c], "names": ch.pick([[], [], ["md"]]), "init": "none"})
         return d
@@ -548,7 +558,7 @@ class Gen:
         if len(bases) == 2 and (self.avoided("diamond-init") if self.diamond_init_would_differ(bases) else False):
             bases = bases[:1]
         if len(bases) == 2 and self.self_dispatch_changes(bases, []) and self.avoided(
-                "self-dispatch-subclass" if any(self.init_info(b)[1] for b in bases) else "self-dispatch-noinit-subclass"):
+                self.self_dispatch_kind(([self.init_info(b)[1] for b in bases if self.init_info(b)[1]] or [None])[0])):
             bases = bases[:1]
         for b in bases:
             expr, via = self.ref(tmp, b, as_base=True)
@@ -569,10 +579,10 @@ class Gen:
             if k is not None:
                 inherited_def, inherited_init = d, k
                 break
-        options = ["none", "none", "plain", "plain", "cb"]
+        options = ["none", "none", "plain", "plain", "cb", "obj"]
         if inherited_init in ("plain", "super", "explicit") and len(bases) == 1:
             options += ["super", "super", "explicit"]
-        if inherited_init == "cb":
+        if inherited_init == "cb" or any(self.inner_of(b) is not None for b in bases):
             options = ["none"]
         if len(bases) == 2:
             options = ["none"]
@@ -587,7 +597,23 @@ class Gen:
             choice = "none"
         if choice == "cb" and self.avoided("stored-field-self"):
             choice = "plain"
+        inner_cls = None
+        if choice == "obj":
+            icands = [c for c in cands if self.init_info(c)[1] in (None, "plain") and self.plain_methods(c)
+                      and self.class_via(c, "local") != "module-attribute-base" and self.inner_of(c) is None]
+            if not icands or self.no_classes:
+                choice = "plain"
+            else:
+                inner_cls = self.ch.pick(icands)
         n_members = 0
+        if choice == "obj":
+            out.append(Line("    def __init__(self, v):"))
+            isc = Scope(self, mod, e.idx, 2, out, "v", self_cls=e, method_name="__init__")
+            io = self.construct(isc, inner_cls)
+            out.append(Line("        self.inner = %s" % io))
+            e.init = "plain"
+            e.inner = inner_cls
+            n_members += 1
         if choice == "plain":
             out.append(Line("    def __init__(self, v):"))
             out.append(Line("        self.v = v"))
@@ -621,7 +647,7 @@ class Gen:
             names = list(force["names"])
         names.sort()
         if bases and names and self.self_dispatch_changes(bases, names) and self.avoided(
-                "self-dispatch-subclass" if self.init_info(e)[1] else "self-dispatch-noinit-subclass"):
+                self.self_dispatch_kind(self.init_info(e)[1])):
             blocked = self.self_called_names(bases)
             names = [n for n in names if n not in blocked]
         init_kind = self.init_info(e)[1]
@@ -664,6 +690,12 @@ class Gen:
             else:
                 sc.emit("return x")
             n_members += 1
+        # method returning self
+        if self.ch.chance(15) and not any(self.find_method(b, "me") for b in bases):
+            e.methods["me"] = {"flavour": "retself", "line": None}
+            out.append(Line("    def me(self):"))
+            out.append(Line("        return self"))
+            n_members += 1
         # recursive method
         if self.ch.chance(12) and not self.avoided("recursive-method"):
             e.methods["rm"] = {"flavour": "rec"}
@@ -698,6 +730,13 @@ class Gen:
                     self.self_calls.append({"line": sc.out[-1], "cls": cls, "name": n})
                     sc.last = v
                     return
+        inner = self.inner_of(cls)
+        if r < 8 and inner is not None and not self.avoided("method-on-self-field"):
+            v = sc.mod.fresh("r")
+            sc.emit("%s = self.inner.%s(%s)" % (v, self.ch.pick(self.plain_methods(inner)), self.arg(sc)),
+                    "method-on-self-field", "local")
+            sc.last = v
+            return
         if r < 8 and self.init_info(cls)[1] == "cb" and not self.avoided("stored-field-self"):
             v = sc.mod.fresh("r")
             sc.emit("%s = self.cb(%s)" % (v, self.arg(sc)), "stored-field-self", "local")
@@ -733,7 +772,7 @@ class Gen:
 
     def method_call(self, sc, o, cls, via, recv_kind=None):
         """emit `v = o.m(arg)` for a random method of cls; False if there is none"""
-        names = self.method_names(cls)
+        names = [n for n in self.method_names(cls) if self.find_method(cls, n)[0].methods[n]["flavour"] != "retself"]
         if not names:
             return False
         n = self.ch.pick(names)
@@ -749,10 +788,11 @@ class Gen:
             kind = "overriding-method" if cnt > 1 else "method"
         else:
             kind = "inherited-method"
-        if recv_kind is not None and kind in ("method", "overriding-method", "inherited-method"):
-            kind = recv_kind
         if self.diamond_differs(cls, n):
             kind = "diamond-method"
+        if recv_kind is not None:
+            # the way the receiver was obtained is what the line is about (whatever the method's flavour)
+            kind = recv_kind
         via = self.class_via(cls, via)
         if self.avoided(kind, via):
             return False
@@ -789,6 +829,15 @@ class Gen:
             return self.diamond_differs(t, "__init__")
         except ValueError:
             return True
+
+    @staticmethod
+    def self_dispatch_kind(init_kind):
+        """kind of a self-call edge that lands in an override of the receiver's (sub)class, by how the receiver was built"""
+        if init_kind is None:
+            return "self-dispatch-noinit-subclass"
+        if init_kind == "explicit":
+            return "self-dispatch-explicit-init-subclass"
+        return "self-dispatch-subclass"
 
     def self_called_names(self, classes):
         """names that methods of the given classes (or of their bases) call through self"""
@@ -860,6 +909,17 @@ class Gen:
             n = ch.pick([1, 2, 2, 3])
             for _ in range(n):
                 self.method_call(sc, o, cls, via)
+            inner = self.inner_of(cls)
+            if inner is not None and ch.chance(60) and not self.avoided("method-on-field", self.class_via(cls, via)):
+                v = sc.mod.fresh("v")
+                sc.emit("%s = %s.inner.%s(%s)" % (v, o, ch.pick(self.plain_methods(inner)), self.arg(sc)),
+                        "method-on-field", self.class_via(cls, via))
+                sc.last = v
+            me = self.find_method(cls, "me")
+            if me is not None and ch.chance(70) and not self.avoided("method-on-returned-self", self.class_via(cls, via)):
+                pv = sc.mod.fresh("p")
+                sc.emit("%s = %s.me()" % (pv, o), "method" if me[0] is cls else "inherited-method", self.class_via(cls, via))
+                self.method_call(sc, pv, cls, via, recv_kind="method-on-returned-self")
             return True
         if which == "callback":
             hs = self.visible(sc, "ho")
@@ -871,6 +931,16 @@ class Gen:
                 return False
             if h.flavour == "default":
                 self.call_func_line(sc, hexpr, "direct", hvia)
+                return True
+            if h.flavour == "cls":
+                cs = self.visible(sc, "class", lambda c: self.init_info(c)[1] in ("plain", "super", "explicit")
+                                  and not self.diamond_differs(c, "__init__")
+                                  and self.class_via(c, "local") != "module-attribute-base")
+                if not cs:
+                    return False
+                cexpr = self.ref(sc, ch.pick(cs), value_use=True)[0]
+                ov = sc.mod.fresh("o")
+                sc.emit("%s = %s(%s, %s)" % (ov, hexpr, cexpr, self.arg(sc)), "direct", hvia)
                 return True
             if h.flavour == "bm":
                 cs = self.visible(sc, "class", lambda c: any(
@@ -921,6 +991,16 @@ class Gen:
                 sc.emit("%s = %s()" % (g, kexpr), "direct", kvia)
             self.call_func_line(sc, g, k.call_kind, "local")
             return True
+        if which == "alias" and not self.no_classes and ch.chance(25) and not self.avoided("stored-class"):
+            cs = self.visible(sc, "class", lambda c: self.init_info(c)[1] in ("plain", "super", "explicit")
+                              and not self.diamond_differs(c, "__init__")
+                              and self.class_via(c, "local") != "module-attribute-base")
+            if cs:
+                cexpr = self.ref(sc, ch.pick(cs), value_use=True)[0]
+                c = sc.mod.fresh("c")
+                sc.emit("%s = %s" % (c, cexpr))
+                sc.emit("%s = %s(%s)" % (sc.mod.fresh("o"), c, self.arg(sc)), "stored-class", "local")
+                return True
         if which == "alias":
             fs = self.visible(sc, "func")
             if not fs or self.avoided("stored-variable"):
@@ -1263,8 +1343,7 @@ class Gen:
                     continue
                 key = "%s:%d>%s:%d" % (pos[id(r["line"])] + pos[id(dl)])
                 # the receiver's class is only known to the callee frame when the object was built by an __init__
-                kinds[key] = ["self-dispatch-subclass" if self.init_info(s_cls)[1] else "self-dispatch-noinit-subclass",
-                              r["line"].via or "local"]
+                kinds[key] = [self.self_dispatch_kind(self.init_info(s_cls)[1]), r["line"].via or "local"]
         return {"files": files, "main": "main.py", "kinds": kinds, "stepped": dict(self.stepped)}
 
 
@@ -1273,7 +1352,9 @@ CLASS_SCENARIOS = {"method", "cbclass", "recv", "objfactory", "classattr", "obj-
 # kinds whose callee is reached through a class or an instance (one root-cause family under --enable-p2)
 OBJECT_KINDS = {
     "constructor", "constructor-inherited-init", "method", "inherited-method", "overriding-method", "self-method",
-    "self-inherited-method", "self-dispatch-subclass", "self-dispatch-noinit-subclass", "method-on-param", "method-on-returned", "method-on-list-element",
+    "self-inherited-method", "self-dispatch-subclass", "self-dispatch-noinit-subclass",
+    "self-dispatch-explicit-init-subclass", "stored-class",
+    "callback-constructor", "method-on-field", "method-on-self-field", "method-on-returned-self", "method-on-param", "method-on-returned", "method-on-list-element",
     "callback-bound-method", "stored-field", "stored-field-self", "recursive-method", "super-init", "super-method",
     "explicit-base-init", "staticmethod", "classmethod", "class-attr-method", "diamond-method", "diamond-init",
     "diamond-class-attr",
